@@ -601,9 +601,24 @@ class BytecodeCompiler(Visitor):
         self.env = env
         # reserve the program's own names: a bare `fresh('__fpy_cmp')` would
         # otherwise return that very name and shadow a source variable
-        self.gensym = Gensym(reserved=DefineUse.analyze(func).names())
+        names = DefineUse.analyze(func).names()
+        self.gensym = Gensym(reserved=names)
+        # a variable of the program spelled like one of the runtime's own names
+        # would become a local of the compiled function and capture every
+        # reference the compiler makes to that helper: it is compiled under
+        # another name
+        runtime = set(make_namespace()) | {CTX_NAME}
+        self._renamed: dict[NamedId, str] = {
+            name: str(self.gensym.fresh('__fpy_var'))
+            for name in sorted(names, key=str)
+            if str(name) in runtime and name not in func.free_vars
+        }
         self._comp_iterable = 0   # depth of comprehension iterables being compiled
         self.foreign_vals = {}
+
+    def _pyname(self, ident: NamedId) -> str:
+        """The Python name a variable of the program is compiled to."""
+        return self._renamed.get(ident, str(ident))
 
     def compile(self):
         # compile the function to a Python AST
@@ -675,7 +690,7 @@ class BytecodeCompiler(Visitor):
 
     def _visit_var(self, e: Var, ctx: None):
         attrs = self._location_to_attributes(e.loc)
-        return pyast.Name(id=str(e.name), ctx=pyast.Load(), **attrs)
+        return pyast.Name(id=self._pyname(e.name), ctx=pyast.Load(), **attrs)
 
     def _visit_bool(self, e: BoolVal, ctx: None):
         attrs = self._location_to_attributes(e.loc)
@@ -958,10 +973,10 @@ class BytecodeCompiler(Visitor):
         match target:
             case SourceId():
                 attrs = self._location_to_attributes(target.loc)
-                return pyast.Name(id=str(target), ctx=pyast.Store(), **attrs)
+                return pyast.Name(id=self._pyname(target), ctx=pyast.Store(), **attrs)
             case NamedId():
                 attrs = self._location_to_attributes(None)
-                return pyast.Name(id=str(target), ctx=pyast.Store(), **attrs)
+                return pyast.Name(id=self._pyname(target), ctx=pyast.Store(), **attrs)
             case UnderscoreId():
                 attrs = self._location_to_attributes(None)
                 return pyast.Name(id='_', ctx=pyast.Store(), **attrs)
@@ -1051,7 +1066,7 @@ class BytecodeCompiler(Visitor):
 
     def _visit_indexed_assign(self, stmt: IndexedAssign, ctx: None):
         attrs = self._location_to_attributes(stmt.loc)
-        arr: pyast.Name | pyast.Subscript = pyast.Name(id=str(stmt.var), ctx=pyast.Load(), **attrs)
+        arr: pyast.Name | pyast.Subscript = pyast.Name(id=self._pyname(stmt.var), ctx=pyast.Load(), **attrs)
         idxs = [self._visit_expr(idx, ctx) for idx in stmt.indices]
         expr = self._visit_expr(stmt.expr, ctx)
 
@@ -1176,7 +1191,7 @@ class BytecodeCompiler(Visitor):
     def _visit_function(self, func: FuncDef, ctx: None):
         posonlyargs: list[pyast.arg] = []
         for arg in func.args:
-            name = str(arg.name)
+            name = self._pyname(arg.name) if isinstance(arg.name, NamedId) else str(arg.name)
             attrs = self._location_to_attributes(arg.loc)
             posarg = pyast.arg(arg=name, annotation=None, type_comment=None, **attrs)
             posonlyargs.append(posarg)
